@@ -26,9 +26,16 @@ BUDGET = {"quick": dict(wall_s=300, max_paths=20000, diff_samples=2), "thorough"
 
 def roundtrip(sx, cname, present):
     cls = msglib.classes()[cname]
+    import copy
     m, kw = msglib.build(sx, cname, present)
+    snap = {n: copy.deepcopy(v) for n, v in kw.items() if isinstance(v, (dict, list)) and not any(sx.is_sym(x) for x in (v.values() if isinstance(v, dict) else v))}
     wire = m.marshal()
     info = dict(cls=cname, present=present)
+    # marshalling is an observation: neither the message nor the objects it was built from change (a second message sharing them is unaffected)
+    for n, v in snap.items():
+        sx.check(kw[n] == v, "marshal()-does-not-mutate-the-objects-the-message-was-built-from", info=dict(info, field=n, now=repr(kw[n])[:120]))
+    wire_again = m.marshal()
+    sx.check(msglib.deep_eq(sx, wire_again, wire), "marshal()-twice-gives-the-same-structure", info=info)
     sx.check(wire[0] == cls.MESSAGE_TYPE, "type-code", info=info)
     try:
         m2 = cls.parse(wire)
